@@ -738,10 +738,9 @@ def first_buffer_growth_after(b, start):
 
 
 # ---------------------------------------------------------------------------------- size-origin
-def rule_size_origin(ctx):
+def rule_size_origin(ctx, R="C01/size-origin"):
     """every memory descriptor that is emitted (pushed to memory_blocks) carries a location whose size is the size of
     the object actually written: a typed writer's location() as a whole, or (position, len(appended bytes))"""
-    R = "C01/size-origin"
     from engine.origin import field_of, alts
     n = 0
     for b in ctx.prog.bodies:
